@@ -194,7 +194,13 @@ func (b *wrapBackend) Publish(c *broker.Client, msg *packet.Message, ack broker.
 	b.w.mu.Lock()
 	b.w.bpublishes[b.connOf(c)] = append(b.w.bpublishes[b.connOf(c)], wire.ShowMessage(msg))
 	b.w.mu.Unlock()
-	return b.MemoryBackend.Publish(c, msg, b.wrapAck(ack))
+	err := b.MemoryBackend.Publish(c, msg, b.wrapAck(ack))
+	if err != nil {
+		// the backend refused (the publisher's own queue is full) — possibly after it had already queued the message
+		// for sessions it visited earlier
+		b.w.record(ev{kind: "bpublish-refused", conn: b.connOf(c), txt: wire.ShowMessage(msg), pkt: &packet.Publish{Message: *msg.Copy()}})
+	}
+	return err
 }
 
 func (b *wrapBackend) Terminate(c *broker.Client) error {
